@@ -383,7 +383,7 @@ class MultiRelationLink(IRelationLink[TCircuitOperation], Generic[TCircuitOperat
         # (End times that differ by floating-point rounding only count as equally late)
         for node in self._reference_nodes:
             end_time, latest_end_time = node.end_time, latest_node.end_time
-            if end_time >= latest_end_time or math.isclose(end_time, latest_end_time, rel_tol=1e-9, abs_tol=0.0):
+            if end_time >= latest_end_time or math.isclose(end_time, latest_end_time, rel_tol=1e-12, abs_tol=0.0):
                 latest_node = node
         return latest_node
 
